@@ -30,7 +30,7 @@ def main():
                         "caught-no-input" if "VIOLATION" in out else "MISSED")
             print(sid, res[sid], "|", out.strip().splitlines()[-2][:160] if len(out.strip().splitlines()) > 1 else out.strip()[:160], flush=True)
         finally:
-            sh("git -C /repo checkout -- . && git -C /repo clean -fdq && python3 /verif/harness/importgraph.py --regenerate && git -C /verif checkout -- evidence")
+            sh("git -C /repo checkout -- . && git -C /repo clean -fdq && python3 /verif/harness/importgraph.py --regenerate && python3 /verif/harness/py2lean.py >/dev/null && git -C /verif checkout -- evidence")
     print(json.dumps({"total": len(res), "caught": sum(v == "caught" for v in res.values()),
                       "caught_no_input": [k for k, v in res.items() if v == "caught-no-input"],
                       "missed": [k for k, v in res.items() if v not in ("caught", "caught-no-input")]}))
